@@ -173,6 +173,21 @@ def run(db, tier):
                 detail = "the operator of the rebuilt block is %s, not the result of negate_comparison" % names
         rep.check(ok, "R-GUARD-CHAIN", "cond|complemented operator", "%s:%d" % (g.file, cb["ln"]), "`if (a op b) goto skip` becomes `if (a !op b) { .. }`", detail)
 
+    # a decrement jump (`--x > 0`) is not a comparison that can be complemented
+    ab = db.fn(DL + "JmpKind::as_binop_cond")
+    rep.fn(ab)
+    okx = False
+    for n in hir_walk(ab.hir):
+        if n.get("k") == "Match" and n.get("src") == "Normal":
+            for arm in n["arms"]:
+                if any(x and "Expr::BinOp" in x for x in arms.pat_sig(arm["p"])) and arms.abstract(arm["b"])[:2] == ("ctor", "core::option::Option::Some"):
+                    g_ = arm.get("g")
+                    if g_ is not None and any(x and "ast::Expr::XcrementOp" in x for m_ in hir_walk(g_) if m_.get("k") == "Match" for a_ in m_["arms"] for x in arms.pat_sig(a_["p"])):
+                        okx = True
+    rep.check(okx, "R-GUARD-CHAIN", "cond|decrement jump", ab.loc, "a condition whose left side is `--x` is not offered for complementing",
+              "as_binop_cond accepts `--x > 0` as a comparison: the if-block would get the condition `--x <= 0`, which no instruction implements, "
+              "so the decompiled script cannot be compiled back")
+
     # interrupt labels: gather_cond_chain accepts only after reject_potentially_confusing_cond_chain
     gc = db.fn(DL + "gather_cond_chain")
     rep.fn(gc)
